@@ -1,4 +1,5 @@
 import JjModel.Lemmas.BisectLinear
+import JjModel.Lemmas.BisectSkip
 /-!
   C37 — Bisection finds the first bad commit.
 
@@ -15,6 +16,8 @@ import JjModel.Lemmas.BisectLinear
   * `reported_are_first_bad` (soundness)      — every reported commit is an earliest bad commit;
   * `complete_unique`                         — exact when the earliest bad commit is unique;
   * `linear_log_steps`                        — on linear history at most `⌈log₂ n⌉` evaluations;
+  * `found_with_skips_is_first_bad`, `found_despite_skips_spec` — with untestable commits, on a
+    convex range: no false result (`possibly_bad` lists every bad commit below a reported one);
   * `not_complete_in_general`                 — the full statement ("reports exactly the earliest
     bad commits") is FALSE for the model (and, by the correspondence check, for the code):
     counter-example decided by evaluation.  This is finding F2 (known finding
@@ -212,6 +215,79 @@ theorem linear_log_steps_log2 (hwf : wfB G = true) (hlin : Linear G) :
     (run G R B []).evals.length ≤ Nat.log2 (descFilter G.length fun c => R.contains c).length + 1 :=
   linear_log_steps hwf hlin _ (Nat.le_of_lt (Nat.lt_log2_self))
 
+/-! ### with untestable commits: no false result -/
+
+/-- what the final state yields, with skips: the roots of the marked-bad set are bad range commits
+and every bad range commit strictly below one of them is listed by the `todo` walk -/
+theorem final_state_spec (hwf : wfB G = true) (hm : Mono G B) (hh : HeadsBad G R B)
+    (hcv : Convex G R) {res : Result} (hres : (run G R B Sk).result = some res) :
+    ∃ rb pb, (res = .indeterminate ∧ rb = []) ∨
+      ((res = .found rb ∧ pb = [] ∨ res = .foundDespiteSkips rb pb ∧ pb ≠ []) ∧
+        (∀ r ∈ rb, r ∈ R ∧ r ∈ B ∧ ∀ a ∈ R, a ≠ r → Anc G a r → a ∈ B → a ∈ pb) ∧
+        ∀ p ∈ pb, p ∈ Sk) := by
+  have hwf' := wfB_iff.1 hwf
+  obtain ⟨st', ht, hc, hr⟩ := runFrom_sound2 _ _ _ (truth2_init (Sk := Sk) hwf' hh) hres
+  refine ⟨rootsOf (ancTable G) G.length st'.bad,
+    possiblyBad G st'.skipped G.length (rootsOf (ancTable G) G.length st'.bad) [], ?_⟩
+  unfold result at hr
+  simp only at hr
+  by_cases hemp : (rootsOf (ancTable G) G.length st'.bad).isEmpty = true
+  · left
+    rw [if_pos hemp] at hr
+    exact ⟨hr, by simpa [List.isEmpty_iff] using hemp⟩
+  · right
+    rw [if_neg hemp] at hr
+    refine ⟨?_, ?_, ?_⟩
+    · by_cases hpb : (possiblyBad G st'.skipped G.length (rootsOf (ancTable G) G.length st'.bad) []).isEmpty = true
+      · rw [if_pos hpb] at hr
+        exact Or.inl ⟨hr, by simpa [List.isEmpty_iff] using hpb⟩
+      · rw [if_neg hpb] at hr
+        exact Or.inr ⟨hr, by simpa [List.isEmpty_iff] using hpb⟩
+    · intro r hr'
+      have hr'' := (mem_rootsOf hwf').1 hr'
+      obtain ⟨hrB, hrR, _⟩ := ht.bad r hr''.2.1
+      refine ⟨hrR, hrB, ?_⟩
+      intro a haR hne haAnc haB
+      obtain ⟨m, hm', hch⟩ := bad_ancestor_chain hwf' hm hcv ht hc hr' a haR hne haAnc haB
+      exact possiblyBad_chain hch _ _ _ (by omega) hr'
+    · intro p hp
+      rcases possiblyBad_sub _ _ _ p hp with h | h
+      · cases h
+      · exact ht.skipped p h
+
+/-- **No false result with skips, `Found`**: on a convex range (`x..y`), if the bisection ends with
+`Found rep` although some commits could not be tested, every reported commit is still an earliest
+bad commit. -/
+theorem found_with_skips_is_first_bad (hwf : wfB G = true) (hm : Mono G B) (hh : HeadsBad G R B)
+    (hcv : Convex G R) {rep : List Nat} (hres : (run G R B Sk).result = some (.found rep)) :
+    ∀ r ∈ rep, FirstBad G R B r := by
+  obtain ⟨rb, pb, h⟩ := final_state_spec hwf hm hh hcv hres
+  rcases h with ⟨h, _⟩ | ⟨h1, h2, _⟩
+  · cases h
+  · rcases h1 with ⟨h, hpb⟩ | ⟨h, _⟩
+    · cases h
+      intro r hr
+      obtain ⟨k1, k2, k3⟩ := h2 r hr
+      refine ⟨k1, k2, ?_⟩
+      intro a haR hne haAnc haB
+      have := k3 a haR hne haAnc haB
+      rw [hpb] at this; cases this
+    · cases h
+
+/-- **No false result with skips, `FoundDespiteSkips`**: the reported commits are bad range
+commits; every bad range commit below one of them is listed in `possibly_bad`; and `possibly_bad`
+only lists commits that could not be tested. -/
+theorem found_despite_skips_spec (hwf : wfB G = true) (hm : Mono G B) (hh : HeadsBad G R B)
+    (hcv : Convex G R) {rep pb : List Nat}
+    (hres : (run G R B Sk).result = some (.foundDespiteSkips rep pb)) :
+    (∀ r ∈ rep, r ∈ R ∧ r ∈ B ∧ ∀ a ∈ R, a ≠ r → Anc G a r → a ∈ B → a ∈ pb) ∧ ∀ p ∈ pb, p ∈ Sk := by
+  obtain ⟨rb, pb', h⟩ := final_state_spec hwf hm hh hcv hres
+  rcases h with ⟨h, _⟩ | ⟨h1, h2, h3⟩
+  · cases h
+  · rcases h1 with ⟨h, _⟩ | ⟨h, _⟩
+    · cases h
+    · cases h; exact ⟨h2, h3⟩
+
 /-! ### the full statement is false: finding F2 -/
 
 /-- root `0`; branch `1 → 2`; branch `3 → 4`; merge `5` of `2` and `4` -/
@@ -291,5 +367,9 @@ example : (run chain8 [0, 1, 2, 3, 4, 5, 6, 7] [5, 6, 7] []).evals.length ≤ 3 
 commit is the merge-base side commit 1 -/
 example : run diamond diamondRange [1, 2, 5] [] = { evals := [2, 1], result := some (.found [1]) } ∧
     minimalBad diamond diamondRange [1, 2, 5] = [1] := by decide
+
+/-- instance: the diamond with the untestable commit `1` (the range `{1,…,5}` is convex) -/
+example : run diamond diamondRange [1, 2, 5] [1] =
+    { evals := [2, 1], result := some (.foundDespiteSkips [2] [1]) } := by decide
 
 end JjModel.C37
